@@ -52,7 +52,7 @@ def _extract(report, output):
     return None
 
 
-def mc14_job(settings, workers, delay, max_replay):
+def mc14_job(settings, workers, delay, max_replay, layout=False):
     import random
     from ..verdict import Mon
     mon = Mon('C14')
@@ -63,6 +63,16 @@ def mc14_job(settings, workers, delay, max_replay):
     if not out.get('result_text'):
         mon.inconclusive('row-grammar', 'no-result-file')
         return {'mon': mon.dump(), 'info': info}
+    _mc14_judge(mon, out, settings, tag, info, max_replay, layout)
+    if isinstance(info.get('layouts'), set):
+        if len(info['layouts']) >= 2:
+            mon.ok('distinct-report-layouts-among-replayed-rows', len(info['layouts']))
+        info['layouts'] = sorted(info['layouts'])
+    return {'mon': mon.dump(), 'info': info}
+
+
+def _mc14_judge(mon, out, settings, tag, info, max_replay, layout):
+    import random
     header, rows, bad, stats = mc.parse_result(out['result_text'], settings)
     info['rows'] = len(rows)
     base = settings.get('base_text') or (mc.GEO_BASE if settings['program'] == 'GEOPHIRES' else mc.HIP_BASE)
@@ -97,6 +107,13 @@ def mc14_job(settings, workers, delay, max_replay):
             continue
         got = [_extract(rep, o) for o in settings['outputs']]
         info['replayed'] += 1
+        if layout:
+            # rows whose report layout differs from the first replayed row's (number of lines): the clause below counts them
+            nl = rep.count('\n')
+            info.setdefault('layouts', set()).add(nl)
+            mon.check('row-replay-with-varying-report-layout', got == r['outputs'],
+                      mechanism='C14/row-not-reproducible-from-its-recorded-inputs:report-layout-varies-between-iterations',
+                      row_outputs=r['outputs'], resimulated=got, inputs=r['inputs'][:3], **tag)
         mon.check('row-replay', got == r['outputs'], mechanism='C14/row-not-reproducible-from-its-recorded-inputs',
                   row_outputs=r['outputs'], resimulated=got, inputs=r['inputs'][:3], **tag)
         if any((g or '').startswith('-') for g in got):
@@ -171,6 +188,22 @@ def run(ctx):
                            + [f'OUTPUT, {o}' for o in outs] + [f'ITERATIONS, {st["iterations"]}']) + '\n'
     jobs.append({'fn': 'gxv.props.c14:mc14_job', 'args': {'settings': st, 'workers': 4, 'delay': 0.0, 'max_replay': ctx.pick(24, 80)},
                  'timeout': 1500})
+    # directed run: a sampled input that changes the LAYOUT of the report from one iteration to the next (the number of
+    # gradient segments: each segment adds lines to RESOURCE CHARACTERISTICS), requested outputs printed before and after
+    # the lines that move, several iterations per worker.  A draw of 0 segments is an invalid input: that iteration fails.
+    lay_base = mc.GEO_BASE + 'Gradient 2, 41\nThickness 1, 1.3\nGradient 3, 33\nThickness 2, 0.9\nGradient 4, 30\nThickness 3, 0.6\n'
+    lay_inputs = [('Number of Segments', ['binomial', 4, 0.6]), ('Gradient 1', ['uniform', 48, 75]),
+                  ('Utilization Factor', ['uniform', 0.7, 0.95])]
+    lay_outs = ['Average Net Electricity Production', 'Project NPV', 'Bottom-hole temperature', 'Average Production Temperature',
+                'Total capital costs', 'Average Pumping Power']
+    n_lay = ctx.pick(72, 240)
+    lay = {'program': 'GEOPHIRES', 'inputs': lay_inputs, 'outputs': lay_outs, 'iterations': n_lay, 'failure': 0.0,
+           'base_text': lay_base,
+           'text': '\n'.join([f'INPUT, {nm}, {d[0]}, ' + ', '.join(str(x) for x in d[1:]) for nm, d in lay_inputs]
+                             + [f'OUTPUT, {o}' for o in lay_outs] + [f'ITERATIONS, {n_lay}']) + '\n'}
+    jobs.append({'fn': 'gxv.props.c14:mc14_job', 'args': {'settings': lay, 'workers': 4, 'delay': 0.0, 'max_replay': ctx.pick(60, 160),
+                                                         'layout': True},
+                 'timeout': 1500})
     jobs.sort(key=lambda j: -j['args']['settings']['iterations'])
     rows = replayed = 0
     with Pool(5) as pool:
@@ -192,7 +225,8 @@ def run(ctx):
                         'rows': v['info']['rows'], 'rows_replayed': v['info']['replayed'], 'mc_error': v['info']['error']}, limit=4)
     ctx.coverage.update({'mc_runs': len(jobs), 'rows_observed': rows, 'rows_replayed': replayed})
     ctx.required.update({'row-grammar': 200, 'row-replay': 150, 'statistics-json': 60, 'statistics-text': 60, 'json-equals-text': 60,
-                         'header': 8, 'row-replay-signed': 10, 'failure-affects-only-its-own-row': 8})
+                         'header': 8, 'row-replay-signed': 10, 'failure-affects-only-its-own-row': 8,
+                         'row-replay-with-varying-report-layout': 30, 'distinct-report-layouts-among-replayed-rows': 2})
     if not ctx.mon.viols and ctx.mon.notes.get('failing-subset-run-with-surviving-rows', 0) == 0:
         ctx.required['failing-subset-observed'] = 1
     ctx.rule = ('the C13 schedule family (GEOPHIRES fast base and HIP-RA-X; iterations {1,3,16,17,40,120,300(,1000)}; 1/2/4/16/32 '
